@@ -117,7 +117,9 @@ def processHdr (ps : PState) (h : Hdr) : Proc :=
 
 /-- `parseStatus` over the `ReadMIMEHeader` call results: a non-empty header
     with a nil error or `io.EOF` is processed; an empty header with a nil
-    error, or any other error, restarts; `io.EOF` ends. -/
+    error, or a `ProtocolError`, restarts; `io.EOF` ends; any other error (here:
+    the "message too large" of the leading-space path) is returned, as of /repo
+    dd58a366 + 02113a58. -/
 def parseEvents (ps : PState) : List Ev → Proc
   | [] => .ok ps
   | e :: es =>
@@ -129,7 +131,8 @@ def parseEvents (ps : PState) : List Ev → Proc
         | r => r
     | .eof =>
       if e.hdr.isEmpty then .ok ps else processHdr ps e.hdr
-    | _ => parseEvents ps es
+    | .proto => parseEvents ps es
+    | .tooLarge => .fail
 
 def parseStatus (file : Bytes) : Proc := parseEvents PState.empty (calls file)
 
